@@ -86,6 +86,11 @@ type Sim struct {
 
 	violation *Violation
 
+	// checkpoint, set by the worker, emits the provisional result of the run; harnesses call
+	// Checkpoint right before they tear the system down, so that a panic of a system goroutine
+	// during shutdown cannot take the finished run's verdict with it.
+	checkpoint func(RunInfo)
+
 	expired atomic.Bool // set by the worker's wall-clock watchdog (real time, outside the bubble)
 
 	// KnownKeys are violation classes recorded as open known findings: they are counted,
@@ -119,9 +124,9 @@ func NewSim(t *testing.T, seed uint64, replay []int, replaying bool) *Sim {
 	return s
 }
 
-func (s *Sim) SetTraceAll(b bool)          { s.traceAll = b }
-func (s *Sim) SetChoiceSink(f func(int))   { s.choiceLog = f }
-func (s *Sim) Replaying() bool             { return s.replaying }
+func (s *Sim) SetTraceAll(b bool)        { s.traceAll = b }
+func (s *Sim) SetChoiceSink(f func(int)) { s.choiceLog = f }
+func (s *Sim) Replaying() bool           { return s.replaying }
 
 // Choose returns a value in [0,n). Every decision of a run goes through here
 // (or ChooseW), so the choice log together with the code decides the run.
@@ -273,6 +278,11 @@ func (s *Sim) Probe(kind string) { s.mu.Lock(); s.Probes[kind]++; s.mu.Unlock() 
 // Violate records the first oracle failure of the run.
 func (s *Sim) Violate(key, detailFmt string, a ...any) {
 	s.mu.Lock()
+	if s.stopped {
+		// the run is over; what free-running goroutines do during shutdown is not judged
+		s.mu.Unlock()
+		return
+	}
 	if s.KnownKeys[key] {
 		if s.KnownHit == nil {
 			s.KnownHit = map[string]int{}
@@ -297,6 +307,13 @@ func (s *Sim) Failed() bool { return s.Violation() != nil }
 
 // Expired reports that the run has used up its wall-clock budget; harness loops stop and the run
 // is counted inconclusive (never a violation).
+func (s *Sim) Checkpoint(info RunInfo) {
+	if s.checkpoint != nil {
+		s.checkpoint(info)
+	}
+}
+func (s *Sim) SetCheckpoint(f func(RunInfo)) { s.checkpoint = f }
+
 func (s *Sim) Expired() bool { return s.expired.Load() }
 func (s *Sim) Expire()       { s.expired.Store(true) }
 
@@ -454,7 +471,11 @@ func (s *Sim) selectOrder(id string, n int, site string) []int {
 	for _, b := range []byte(site) {
 		h = (h ^ uint64(b)) * 1099511628211
 	}
-	return rand.New(rand.NewPCG(s.Seed^h, c)).Perm(n)
+	perm := rand.New(rand.NewPCG(s.Seed^h, c)).Perm(n)
+	if debugActs {
+		s.Logf("      select order %s visit %d: %v", site, c, perm)
+	}
+	return perm
 }
 
 // Attach installs the simulator behind vsel's hooks. Detach must be called at the end of the run.
